@@ -137,6 +137,10 @@ def positions_through_rules():
             ("statement", "XYZ=ABC(ABC)+ABC", ["XY", "arr_AB", "AB", "AB"]), ("statement", "INPUT ABC$,ABC,ABC$(1)", ["AB$", "AB", "arr_AB$"]),
             ("statement", "READ ABC$,ABC(2)", ["AB$", "arr_AB"]), ("last_statement", 'ABC$(3)="ELEMENT', ["arr_AB$"]), ("last_statement", 'LET ABC$(1,2)="X Y', ["arr_AB$"]),
             ("last_statement", 'ABC$="ELEMENT', ["AB$"]), ("statement", 'ABC$(3)="E"', ["arr_AB$"]), ("statement", "LINE INPUT ABC$", ["AB$"]), ("statement", "HPRINT(1,2),ABC$", ["AB$"]),
+            # an element is an element of the array whatever its subscript is - 0 included, in VARPTR too
+            ("statement", "XYZ=VARPTR(ABC(0))", ["XY", "arr_AB"]), ("statement", "XYZ=VARPTR(ABC$(0,0))", ["XY", "arr_AB$"]), ("statement", "XYZ=VARPTR(ABC(1))", ["XY", "arr_AB"]),
+            ("statement", "XYZ=VARPTR(ABC(Q))", ["XY", "arr_AB", "Q"]), ("statement", "XYZ=VARPTR(ABC$)", ["XY", "AB$"]), ("statement", "XYZ=ABC(0)+ABC", ["XY", "arr_AB", "AB"]),
+            ("statement", "ABC(0)=ABC", ["arr_AB", "AB"]), ("statement", "PRINT ABC$(0);ABC$", ["arr_AB$", "AB$"]), ("statement", "XYZ=VARPTR(ABC(&H0))", ["XY", "arr_AB"]),
         ]
         for rule, src, idents in more:
             try:
@@ -205,6 +209,29 @@ def initializer_kinds():
                 res.append(ob("initializer/kinds/%s/%s" % (name, nm), got == want, want, got, src))
         return res
     return guarded("initializer/kinds", run)
+
+
+def initializer_positions():
+    """with initialize_vars every user scalar that the program can read gets its Color BASIC start value (0 / "") in the prologue, in
+    whatever position it occurs - a FOR control variable too: a jump can reach a use before the FOR ran - and nothing else does:
+    no temporary, no record, no handle of the runtime (`pid`)"""
+    def run():
+        from coco.b09.compiler import convert
+        res = []
+        P = {"FOR control": ("10 FOR V9=1 TO 2:NEXT", ["V9"]), "FOR bound": ("10 FOR I=1 TO V9:NEXT", ["I", "V9"]), "FOR step": ("10 FOR I=1 TO 2 STEP V9:NEXT", ["I", "V9"]),
+             "FOR control read before the loop": ("10 IF I=0 THEN 30\n20 FOR I=1 TO 3:NEXT I\n30 PRINT I", ["I"]), "NEXT": ("10 FOR I=1 TO 2:NEXT I:V9=V9", ["I", "V9"]),
+             "IF condition": ("10 IF V9=1 THEN 10", ["V9"]), "ON selector": ("10 ON V9 GOTO 10", ["V9"]), "subscript": ("10 A(V9)=1", ["V9"]), "function argument": ("10 A=ABS(V9)", ["A", "V9"]),
+             "PRINT item": ("10 PRINT V9", ["V9"]), "call argument": ("10 SOUND V9,1", ["V9"]), "convertible function argument": ("10 A=INT(V9)", ["A", "V9"]), "string in LEN": ("10 A=LEN(V9$)", ["A", "V9$"]),
+             "string PRINT": ("10 PRINT V9$", ["V9$"]), "HBUFF (the runtime's handle pid is not a user variable)": ("10 HBUFF 1,10:V9=1", ["V9"]), "HGET with a user variable": ("10 HBUFF 1,10:HGET(0,0)-(V9,1),1", ["V9"]),
+             "PLAY": ('10 PLAY V9$', ["V9$"]), "ELSE arm": ("10 IF A=1 THEN B=1 ELSE B=V9", ["A", "B", "V9"]), "POKE": ("10 POKE V9,1", ["V9"]), "three-letter user names": ("10 PID=1:TMP=PID:ERN=1", ["ER", "PI", "TM"]),
+             "hoisted temporaries next to user variables": ("10 A=INT(B)+VAL(C$)+LEN(STR$(D))", ["A", "B", "C$", "D"])}
+        for name, (src, want) in P.items():
+            for prefix in (True, False):
+                text = convert(src + "\n", add_standard_prefix=prefix, initialize_vars=True)
+                got = sorted(set(re.findall(r'(?m)^\s*([A-Za-z_0-9$]+) := (?:0\.0|"")$', text)))
+                res.append(ob("initializer/positions/%s,prefix=%d" % (name, prefix), got == sorted(want), sorted(want), got, src))
+        return res
+    return guarded("initializer/positions", run)
 
 
 def reserved_values():
@@ -316,4 +343,4 @@ def config_names_c09():
 
 
 def obligations():
-    return truncation() + kinds_disjoint() + generated_identifiers() + variable_positions() + positions_through_rules() + reserved_values() + initializer_skips_generated() + initializer_kinds() + config_names_c09() + kinds_in_declarations() + next_names()
+    return truncation() + kinds_disjoint() + generated_identifiers() + variable_positions() + positions_through_rules() + reserved_values() + initializer_skips_generated() + initializer_kinds() + initializer_positions() + config_names_c09() + kinds_in_declarations() + next_names()
